@@ -24,75 +24,75 @@ TABLE = {
             "async; one method per source fn, in order. The same predicate is evaluated on the real macro's output and the "
             "method signatures/bodies of real and model output are compared on every generated case.",
             "Not covered: macro hygiene (spans) of forwarded identifiers and the run-time meaning of the call are rustc's; the predicate is about tokens.",
-            "Lean 4 theorem over a model of the expander + differential correspondence against the real macro", "5/C01"),
+            "Lean 4 theorem over a model of the expander + differential correspondence against the real macro", "3/C01"),
     "C02": ("Lean theorem T_C02: the rendered expansion of an fn input is the printed input followed by generated items; for a "
             "module it is the header, then a brace group holding the split items' tokens followed by generated items, then generated "
             "items; the splitter lemma shows the split items' tokens concatenate to the module body (under the checked oracle "
             "condition); for an impl block the inherent block's body is the input body. On the real side the harness checks the "
             "token prefix property directly.",
             "Inputs on which syn's own printer is not the identity (empty `<>`, `T:` without bounds) are excluded by the decidable, per-case checked hypothesis synStable.",
-            "Lean 4 theorem (token-level append-only + splitter concatenation lemma) + real-output prefix check", "5/C02"),
+            "Lean 4 theorem (token-level append-only + splitter concatenation lemma) + real-output prefix check", "3/C02"),
     "C03": ("Lean theorem T_C03 (under the decidable validity hypotheses identsOk and genericsOk): every generated method - trait declaration and delegating definition - has the source function's parameter types after the dependency token for token, the receiver the dependency parameter prescribes, the source's lifetime parameters, qualifiers, variadic, asyncness and return type; every where-predicate that is not a bound on the dependency's own type parameter stays in scope on the method; the trait declares exactly the lifted type/const parameters of the source functions (liftedParams) and the impl names them in order; T_C03_full / T_C03_closed (hypothesis lifetimesOk): the where clause of the generated trait names no lifetime that is not in scope there (a predicate that talks about a lifetime parameter of the function stays on the method only), and the impl adds nothing to it but the predicate with the dependency bounds. The rustc half (the expansion compiles, incl. borrow checking of results borrowed from the dependency or arguments) is sampled by the compile-and-run probe p_c03_sigs.",
             "partial: 'compiles' is rustc's judgement. Known findings C03.dupgeneric and C03.ltbound (each also a kernel-checked witness theorem) tolerated only inside their classes.",
-            'Lean 4 theorem on call-type identity and generic scoping + differential correspondence + rustc compile-and-run probe', "5/C03"),
+            'Lean 4 theorem on call-type identity and generic scoping + differential correspondence + rustc compile-and-run probe', "3/C03"),
     "C04": ("Lean theorem T_C04: the generated impl's own type parameter carries exactly Sync [+ Send iff some function takes the "
             "dependency by value] + 'static, its `Self:` predicate carries exactly the multiset of bounds declared on the dependency "
             "parameter (inline, where-clause, impl-trait, over all functions), every other predicate is a where-predicate the user wrote, "
             "and the self type is Impl<T> iff the invocation is mockable. T_C04_iff / T_C04_sem: over an abstract trait solver, the impl applies to an "
             "application type iff it meets the fixed requirement and every declared dependency bound (sameMultiset proved to be a permutation).",
             "The trait solver is modelled as the conjunction of the written bounds.",
-            "Lean 4 theorem on the impl header + differential correspondence", "5/C04"),
+            "Lean 4 theorem on the impl header + differential correspondence", "3/C04"),
     "C05": ("Lean theorem T_C05: for a concrete dependency the trait carries exactly one nested `::entrait::entrait(unimock = false, "
             "mockall = false)` attribute and the impl is for the concrete type itself; T_C05_full: the leaf trait is final (its async methods "
             "already have the future type and Send-ness C12 prescribes, since the nested invocation does not see `?Send`); T_C05_two_stage: the "
             "generated trait fed back into the model is accepted under every variant, forwards Impl<T> to T: Trait (P_C06) and derives no mock; T_C05_sem: there the bounds on T hold iff T satisfies the leaf trait; "
             "the harness runs the same second stage on the real macro (nested cases).",
             "Second stage emulates the compiler's attribute expansion order (unimock derivation above, cfg_attr resolved).",
-            "Lean 4 theorem + two-stage differential correspondence", "5/C05"),
+            "Lean 4 theorem + two-stage differential correspondence", "3/C05"),
     "C06": ("Lean theorem T_C06: for an entraited trait without delegation-target trait, the Impl<T> impl has the trait's generics, "
             "every method has the source signature (up to parameter names) and its body is the forwarding call of the selected shape "
             "(self.as_ref()[.as_ref()|.borrow()].m(args)[.await]) with the parameter identifiers in order; T's bounds are the provider "
             "plus only Sync/'static. T_C06_iff / T_C06_sem: over an abstract trait solver, given the fixed requirement the bounds on T hold iff T "
             "satisfies the provider bound selected by delegate_by.",
             "The extra `Send` for async traits delegated by reference was a finding (C06.send) and is repaired (0be7903).",
-            "Lean 4 theorem + differential correspondence", "5/C06"),
+            "Lean 4 theorem + differential correspondence", "3/C06"),
     "C07": ("Lean theorem T_C07: trait side - the delegation-target trait has `EntraitT` prepended to the generics, `: 'static`, "
             "receiver rewritten to / followed by `__impl`, the selector trait is `pub trait D<T> { type Target: I<T>; }`, and every "
             "Impl<T> method body is `<EntraitT::Target as I<EntraitT>>::m(self, args)` resp. the `AsRef<dyn I<EntraitT>>` form; "
             "impl-block side - `impl<EntraitT..> Path<EntraitT, ..> for X where Impl<EntraitT>: deps` with bodies `Self::m(__impl, args)`.",
             "Trait selection (`T::Target`, `dyn` coercion) itself is rustc's.",
-            "Lean 4 theorem + differential correspondence", "5/C07"),
+            "Lean 4 theorem + differential correspondence", "3/C07"),
     "C08": ('Lean theorems T_C08 / classify_fn / splitBody_print: the generated trait and impl have exactly one method per body entry the splitter classifies as a function, named like it, in source order; an entry is a function iff (after its outer attributes) it has a non-empty visibility, the following tokens look like a fn header, a signature parses there and is not followed by `;`; entries are contiguous slices of the top-level token trees of the body, so nothing inside a delimited group is looked at; the trait is named as requested, has visibility visFromInside(requested) and `vis use m::Trait;` follows the module. The generator additionally knows by construction which entries are visible functions (ground truth); importability from the parent for every visibility form is compiled by rustc in the probe p_c08_mod_visibility.',
             "The splitter's syn::Signature oracle is supplied by the harness and checked per case.",
-            'Lean 4 theorem + generator-side ground truth + differential correspondence + rustc probe', "5/C08"),
+            'Lean 4 theorem + generator-side ground truth + differential correspondence + rustc probe', "3/C08"),
     "C09": ("Lean theorem T_C09 (partial): name, visibility, generics, supertraits, where clause and every method (attributes and "
             "signature, modulo the documented async rewrite) of an entraited trait are re-emitted unchanged and only mock "
             "derivations are added.",
             "Known findings C09.unsafe / C09.default / C09.assoc (dropped by the macro; kernel-checked witness theorems) are tolerated only inside their class predicates; every attribute of the trait is kept (attrs_kept, since fix 58615e0).",
-            "Lean 4 theorem + differential correspondence", "5/C09"),
+            "Lean 4 theorem + differential correspondence", "3/C09"),
     "C10": ("Lean theorem T_C10: for every item and every option set and macro variant, the mock derivations on the generated or "
             "re-emitted trait are exactly: unimock iff enabled (and mock_api given for fn/mod), automock iff mockall = true, each "
             "wrapped in cfg_attr(test, ..) iff not exporting; delegation-target traits carry none. T_C10_sem reads this as what a build contains: "
             "a non-exporting invocation has no active mock derivation in a non-test build; in a test build, and for an exporting invocation "
             "in every build, exactly the enabled ones are active. The whole lattice is also enumerated against the real macro.",
             "The facade mapping (cargo feature -> macro variant) in src/lib.rs is read on every run and executed by the feature-on / feature-off probes.",
-            "Lean 4 theorem + exhaustive lattice enumeration against the real macro", "5/C10"),
+            "Lean 4 theorem + exhaustive lattice enumeration against the real macro", "3/C10"),
     "C11": ("Lean theorem T_C11: when the unimock derivation is emitted its arguments are exactly prefix=::entrait::__unimock, "
             "api=[Name] / api=Name iff mock_api, and unmock_with=[..] with one entry per method in order: `f`, `_` or `f(params)`.",
             "unimock's own contract (entry i pairs with method i) is read from its source, not verified.",
-            "Lean 4 theorem + differential correspondence", "5/C11"),
+            "Lean 4 theorem + differential correspondence", "3/C11"),
     "C12": ("Lean theorem T_C12: without async_trait, an async source method is declared non-async returning "
             "`impl ::core::future::Future<Output = R> [+ ::core::marker::Send]` (Send iff ?Send absent, R = () if omitted) while the "
             "impl keeps `async fn .. -> R` and awaits; with async_trait the signature is unchanged and the attribute is re-applied "
             "to trait(s) and impl.",
             "Whether a particular future is Send is rustc's auto-trait inference.",
-            "Lean 4 theorem + differential correspondence", "5/C12"),
+            "Lean 4 theorem + differential correspondence", "3/C12"),
     "C13": ("Lean theorem T_C13: fn input - the trait's visibility tokens are exactly the requested ones (none if none), independent of the fn's own; mod input - visFromInside(requested): pub(super) if none, pub / crate-rooted unchanged, a restriction relative to the attribute's place re-based one level (lemma moduleVis_eq); trait input - re-emitted trait and delegation-target trait carry the source trait's visibility. Exhaustive requested x item visibility lattice against the real macro; privacy itself is checked by rustc in 1 positive and 2 must-not-compile probes.",
             "Privacy checking of the tokens is rustc's (sampled by probes).",
-            'Lean 4 theorem + exhaustive visibility lattice against the real macro + rustc privacy probes', "5/C13"),
+            'Lean 4 theorem + exhaustive visibility lattice against the real macro + rustc privacy probes', "3/C13"),
     "C14": ("Lean theorem T_C14: unless dynamic dispatch was requested (delegate_by = ref/Borrow, #[entrait(ref)], async_trait) every delegating body is exactly one direct call, optionally awaited - f(self, ..), Self::f(__impl, ..), self.as_ref().m(..) or <EntraitT::Target as I<EntraitT>>::m(self, ..) -, the macro's type parameter carries only ::core::marker::Sync / Send / 'static, and the impl is for EntraitT, ::entrait::Impl<EntraitT> or the user's own type; with T_C12 (async declared as `-> impl Future`, never boxed). Allocation counts are measured by a counting global allocator in the probe p_c12_c14_async_alloc (direct call vs call through the trait, sync and async).",
             "partial: allocation behaviour of compiled code is rustc's; sampled by the probe.",
-            'Lean 4 theorem (exact call shapes) + differential correspondence + counting-allocator probe', "5/C14"),
+            'Lean 4 theorem (exact call shapes) + differential correspondence + counting-allocator probe', "3/C14"),
     "C15": ("Lean theorem T_C15: the model never reaches a panic site, for all attribute token lists and all items; documented "
             "misuses map to their messages (T_C15_misuse) *and to the tokens to blame* (T_C15_at: message and leaf range of the diagnostic are "
             "one of the listed (misuse, place) pairs; T_C15_where + At.slice: every item-side place is a slice of the item holding exactly "
@@ -102,30 +102,30 @@ TABLE = {
             "diagnostic points at (span-locations) is compared with the model's, and rustc's own primary spans are checked by the probe "
             "n_c15_locations (20 located diagnostics).",
             "Inputs syn itself rejects are outside the model; they are covered by the search only.",
-            "Lean 4 theorem (panic-freedom of the model) + fuzzing of the real macro", "5/C15"),
+            "Lean 4 theorem (panic-freedom of the model) + fuzzing of the real macro", "3/C15"),
     "C16": ("Lean theorem T_C16: for all parameter pattern lists the generated method declares plain identifiers, pairwise distinct "
             "(given distinct source bindings), never the function's own name; a plain binding keeps its name, a pattern with one "
             "binding takes it. Exhaustive enumeration of pattern lists over the property's alphabet against the real macro.",
             "char::is_lowercase is modelled for ASCII.",
-            "Lean 4 theorem by induction over the parameter list + exhaustive enumeration", "5/C16"),
+            "Lean 4 theorem by induction over the parameter list + exhaustive enumeration", "3/C16"),
     "C17": ("Lean theorems T_C17_*: bare option = `= true`; `= false` of no_deps/export = omitted; permutation invariance for distinct "
             "keys; variant = plain + implied options; acceptance table. Metamorphic pairs and the documented option table are run "
             "against the real macro.",
             "Known finding C17.no_deps_on_mod.",
-            "Lean 4 theorems on the option parser + metamorphic testing of the real macro", "5/C17"),
+            "Lean 4 theorems on the option parser + metamorphic testing of the real macro", "3/C17"),
     "C18": ("Lean theorem T_C18: in fn / mod / impl modes generated traits carry only entrait-owned attributes plus re-applied "
             "async_trait/automock, impls only async_trait, parameters none; the method generated for a function of a module / impl "
             "block carries exactly that function's cfg attributes (a disabled function takes its trait method and delegating method "
             "with it), a single function's method none; in trait mode delegating methods mirror the source method's attributes. "
             "That rustc then drops the method is exercised by the probe p_c18_cfg_fns.",
             "cfg evaluation itself is rustc's (sampled by the probe).",
-            "Lean 4 theorem + differential correspondence", "5/C18"),
+            "Lean 4 theorem + differential correspondence", "3/C18"),
     "C19": ("Lean theorem T_C19: the bounds on the macro's type parameter are absolute paths or 'static; the self type is EntraitT, ::entrait::Impl<EntraitT> or the user's; what the macro requires of T in trait mode is an absolute path or one of the user's own trait names; every delegating body is one of the recognised call shapes (which name only the callee, the method's parameters, self/Self/__impl/EntraitT and ::core paths); rewritten return types are the absolute impl ::core::future::Future form (from T_C12). Name resolution in a hostile scope (user items called Impl, Send, Sync, Future, AsRef, core, std, entrait, ...) is exercised with rustc by the probe p_c19_capture.",
             "partial: that an absolute path cannot be captured is rustc's name resolution (sampled by the probe). Reserved names: EntraitT, __impl.",
-            'Lean 4 theorem (absolute-path predicates) + differential correspondence + rustc name-capture probe', "5/C19"),
+            'Lean 4 theorem (absolute-path predicates) + differential correspondence + rustc name-capture probe', "3/C19"),
     "C20": ("The model's expand is a total Lean function of (variant, attribute, item) - no other input exists on the model side. Lean theorems T_C20_set_irrelevant / T_C20_fixParams_any_order / firstFree_least: the only hash-seeded structure of the implementation, the HashSet of reserved parameter names, is used through membership only (any enumeration of the set gives the same generated parameters) and the fuel-bounded search loops of the model equal the implementation's unbounded loops. That the implementation agrees with this function in fresh processes, with 1-16 threads, shuffled invocation order and perturbed environment is checked on every run (token equality against the model and between re-runs).",
             "Process-level nondeterminism outside the macro (rustc's proc-macro server) is not exercised; the in-process engine and the re-runs are.",
-            'Lean 4 theorem (set-representation independence) + token-level correspondence + re-runs across processes/threads/orders', "5/C20"),
+            'Lean 4 theorem (set-representation independence) + token-level correspondence + re-runs across processes/threads/orders', "3/C20"),
 }
 
 
